@@ -2,7 +2,7 @@
 (***************************************************************************)
 (* Behaviour generation for the server engine: random behaviours of        *)
 (* ServerMC (tlc -simulate) with a history of the environment's actions    *)
-(*   whole c f | part c f | rest c                                         *)
+(*   whole c f | part c f | rest c | idle c (recv time-out, no partial frame)*)
 (* The harness replays each history into every real front-end: frames      *)
 (* whole, or split in two reads with the other connection's traffic in     *)
 (* between, and ServerTrace judges every event.                            *)
@@ -10,13 +10,14 @@
 EXTENDS ServerMC, Json
 CONSTANT GenDepth
 VARIABLE hist
-gvars == <<cfg, tab, out, pend, fedpart, last, hist>>
+gvars == <<cfg, tab, out, pend, fedpart, last, rf, hist>>
 GInit == Init /\ hist = <<>>
 GNext == /\ Len(hist) < GenDepth
          /\ \E c \in Conns :
               \/ \E f \in Frames : RecvWhole(c, f) /\ hist' = Append(hist, [op |-> "whole", c |-> c, uid |-> f.uid, pdu |-> f.pdu])
               \/ \E f \in PartFrames : RecvPart(c, f) /\ hist' = Append(hist, [op |-> "part", c |-> c, uid |-> f.uid, pdu |-> f.pdu])
               \/ RecvRest(c) /\ hist' = Append(hist, [op |-> "rest", c |-> c, uid |-> 0, pdu |-> <<>>])
+              \/ Idle(c) /\ hist' = Append(hist, [op |-> "idle", c |-> c, uid |-> 0, pdu |-> <<>>])
 GSpec == GInit /\ [][GNext]_gvars
 Export == Len(hist) = GenDepth =>
             PrintT("HIST " \o ToJson([single |-> cfg.single, hosted |-> cfg.hosted, broadcast |-> cfg.broadcast, ignore |-> cfg.ignore, hist |-> hist]))
